@@ -157,11 +157,42 @@ def sid(u):
     return None if u is None else str(u)
 
 
+def protected_attrs(spec):
+    """Template attributes only the server may assign (spec['prot']): the engine must refuse the request."""
+    pr = spec.get('prot')
+    if not pr:
+        return []
+    if pr[0] == 'uid':
+        return [kdrv.attr('UNIQUE_IDENTIFIER', str(spec['prot_uid']))]
+    if pr[0] == 'otype':
+        return [kdrv.attr('OBJECT_TYPE', OT.SECRET_DATA)]
+    if pr[0] == 'state':
+        return [kdrv.attr('STATE', enums.State.ACTIVE)]
+    if pr[0] == 'idate':
+        return [kdrv.attr('INITIAL_DATE', 5)]
+    raise KeyError(pr[0])
+
+
+def concretize(runner, spec):
+    """Resolve the symbolic targets of an abstract item against the current run."""
+    c = dict(spec)
+    if 'tgt' in spec:
+        c['tgt_uid'] = runner.resolve(spec['tgt'])
+    if 'w' in spec:
+        c['w_uid'] = runner.resolve(spec['w'])
+    if 'bases' in spec:
+        c['base_uids'] = [runner.resolve(b) for b in spec['bases']]
+    if spec.get('prot') and spec['prot'][0] == 'uid':
+        c['prot_uid'] = runner.resolve(spec['prot'][1])
+    return c
+
+
 def build_item(spec, ver):
     """spec: abstract item (dict) with targets already resolved (tgt_uid / w_uid / base_uids)."""
     o = spec['op']
     good = spec.get('good', True)
     opn = [kdrv.attr('OPERATION_POLICY_NAME', 'team')] if spec.get('pol') else []
+    opn = opn + protected_attrs(spec)
     if o == 'create':
         mask = None if not good else ((M.ENCRYPT, M.DECRYPT, M.WRAP_KEY, M.DERIVE_KEY) if spec.get('rich') else (M.ENCRYPT, M.DECRYPT))
         return kdrv.create(mask=mask, names=['n0'], extra=([kdrv.attr('OBJECT_GROUP', 'g0')] if spec.get('rich') else []) + opn)
@@ -321,11 +352,7 @@ class Runner:
         Nobody sees an answer; whether the transaction reached the file is read from the file."""
         import os
         eng, tr = self.eng, self.tr
-        c = dict(spec)
-        if 'tgt' in spec:
-            c['tgt_uid'] = self.resolve(spec['tgt'])
-        if 'bases' in spec:
-            c['base_uids'] = [self.resolve(b) for b in spec['bases']]
+        c = concretize(self, spec)
         before_next, before_uids = eng.next_uid(), eng.uids()
         req = eng.build([build_item(c, ver)], version=ver)
         pid = os.fork()
@@ -385,16 +412,7 @@ class Runner:
     def request(self, who, ver, cont, specs):
         """who: index into USERS; specs: abstract items with symbolic targets (resolved now)."""
         eng, tr = self.eng, self.tr
-        conc = []
-        for s in specs:
-            c = dict(s)
-            if 'tgt' in s:
-                c['tgt_uid'] = self.resolve(s['tgt'])
-            if 'w' in s:
-                c['w_uid'] = self.resolve(s['w'])
-            if 'bases' in s:
-                c['base_uids'] = [self.resolve(b) for b in s['bases']]
-            conc.append(c)
+        conc = [concretize(self, s) for s in specs]
 
         items = [build_item(c, ver) for c in conc]
         before = eng.dump() if self.oracle else None
@@ -565,6 +583,19 @@ def gen_create_spec(rng, tr, cheap=True):
     s = gen_create_spec0(rng, tr, cheap)
     if rng.random() < 0.4:
         s['pol'] = 1                                   # Operation Policy Name 'team'
+    if rng.random() < 0.12:                            # the template tries to assign what only the server assigns
+        x = rng.random()
+        if x < 0.7:
+            dead = [k for k, r in enumerate(tr.log) if r['uid'] in tr.destroyed]
+            y = rng.random()
+            if dead and y < 0.6:
+                s['prot'] = ['uid', ['ref', rng.choice(dead)]]
+            elif tr.log and y < 0.8:
+                s['prot'] = ['uid', ['ref', rng.randrange(len(tr.log))]]
+            else:
+                s['prot'] = ['uid', ['fresh', rng.choice([0, 3])]]
+        else:
+            s['prot'] = [rng.choice(['otype', 'state', 'idate'])]
     return s
 
 
@@ -789,6 +820,19 @@ def scenarios():
                [('req', carol_c, (2, 0), False, [{'op': 'register', 't': 'TCert', 'good': True, 'pol': 1}]),
                 ('req', bob_c, (1, 4), False, [D(['newest'])]), ('req', carol_c, (1, 4), False, [T]),
                 ('req', carol_c, (1, 4), False, [G(['newest'])]), ('req', alice, (1, 4), False, [{'op': 'locate'}])])
+    # a template that names a Unique Identifier (dead, live, never issued) or another server-assigned attribute: refused,
+    # nothing issued; the dead identifier stays dead
+    O = {'op': 'register', 't': 'TOpaque', 'good': True}
+    sc = [('req', 0, (1, 2), False, [O]), ('req', 0, (1, 2), False, [C]), ('req', 0, (1, 2), False, [O]),
+          ('req', 0, (1, 2), False, [D(['ref', 2])]), ('restart',)]
+    for maker in (C, O, {'op': 'ckp', 'good': True}, {'op': 'derive', 'bases': [['ref', 1]], 't': 'TSym', 'good': True}):
+        for tgt in (['ref', 2], ['ref', 0], ['fresh', 2]):
+            sc.append(('req', 1, (1, 2), False, [dict(maker, prot=['uid', tgt])]))
+            sc.append(('req', 0, (1, 2), True, [G(['ref', 2]), {'op': 'locate'}]))
+        for kind in ('otype', 'state', 'idate'):
+            sc.append(('req', 1, (1, 4), False, [dict(maker, prot=[kind])]))
+    sc.append(('req', 1, (1, 2), False, [C]))
+    out.append(sc)
     # the server is killed while it creates / destroys, at three points of the transaction; then the next create
     for point in ('after_write', 'before_commit', 'after_commit'):
         out.append([('req', 0, (1, 2), False, [C]), ('killed', 0, (1, 2), C, point), ('req', 1, (1, 2), False, [C]),
@@ -820,11 +864,11 @@ def replay_events(run, events):
             skip_restart = False
         elif ev['ev'] == 'killed':
             it = ev['items'][0]
-            spec = {k: v for k, v in it.items() if k in ('op', 'good', 'rich', 't', 'bases', 'tgt', 'w', 'k', 'variant', 'pol')}
+            spec = {k: v for k, v in it.items() if k in ('op', 'good', 'rich', 't', 'bases', 'tgt', 'w', 'k', 'variant', 'pol', 'prot')}
             run.killed_request(ev['who'], tuple(ev['ver']), spec, ev['point'])
             skip_restart = True                        # killed_request records its own restart event
         else:
-            specs = [{k: v for k, v in it.items() if k in ('op', 'good', 'rich', 't', 'bases', 'tgt', 'w', 'k', 'variant', 'pol')}
+            specs = [{k: v for k, v in it.items() if k in ('op', 'good', 'rich', 't', 'bases', 'tgt', 'w', 'k', 'variant', 'pol', 'prot')}
                      for it in ev['items']]
             run.request(ev['who'], tuple(ev['ver']), ev['cont'], specs)
 
